@@ -71,6 +71,12 @@ CHECKS = {
         text="Narrow claim. Bounded model checking against an arbitrary environment order: for 1..3 roots and every iteration order of the root-name collection, driver.get_system's project name, every object's url (index.html rule), the summary page list and the single-root rule are the same; for every listing order (120) of a package directory, System.addPackage discovers modules in the same order. Byte-identical output trees across hash seeds / reused output directories are NOT decided (not expressible to a solver).",
         note="Trusted: CrossHair exhaustion verdict; the permutation stubs as the model of set / directory-listing order. File-system side effects are unblocked for the directory harness (mkdtemp only).",
     ),
+    "C04": dict(
+        level="model_checking", design="DESIGN.md §3 C04",
+        technique="CrossHair (z3): symbolic import level through the real visit_ImportFrom against importlib's own resolver; solver-enumerated import statements and project shapes, every runtime-bound name compared with CPython importing the same sources in memory",
+        text="K04a: for every nesting depth 0..3, module/package/class scope and module part, CrossHair exhausts the paths of visit_ImportFrom for a symbolic level 1..5 (7) and the bound name equals importlib._bootstrap._resolve_name's result, or nothing is bound and a report issued when Python refuses. K04b/c: plain imports and 380 project shapes (11 import forms x scope x depth x 5 uses x optional third module): for every name CPython binds in every module and class namespace, resolveName gives that object or None, and never None for names imported directly from the defining module or through a module alias.",
+        note="Trusted: CrossHair exhaustion verdict; importlib._bootstrap._resolve_name and CPython's import system (in-memory finder) as oracles. K04c is bounded-exhaustive (class E).",
+    ),
 }
 
 NOT_APPLICABLE = {
